@@ -81,10 +81,28 @@ pub fn run(ctx: &Ctx) -> Outcome {
                 break;
             }
         };
-        // stall monitor: the progress file must grow at least every 10 s
+        // Hang monitor. The verdict is taken on the worker's own CPU time, not on the wall clock: a
+        // body that keeps the receiver BUSY for more than 10 CPU-seconds (normal is < 1 ms) without the
+        // progress file growing is a hang. A stall without CPU consumption (loaded or paused machine,
+        // snapshotting VM) is no verdict; only after 5 minutes of it the worker is restarted and the run
+        // is marked inconclusive.
+        let cpu_ticks = |pid: u32| -> u64 {
+            std::fs::read_to_string(format!("/proc/{}/stat", pid))
+                .ok()
+                .and_then(|t| {
+                    let rest = t.rsplit(')').next()?.to_string();
+                    let f: Vec<&str> = rest.split_whitespace().collect();
+                    // after the command name: state is f[0]; utime and stime are fields 14 and 15 of the line
+                    Some(f.get(11)?.parse::<u64>().ok()? + f.get(12)?.parse::<u64>().ok()?)
+                })
+                .unwrap_or(0)
+        };
+        let pid = child.id();
         let mut last_len = 0u64;
         let mut last_change = crate::clock::real_mono_ns();
+        let mut cpu_at_change = cpu_ticks(pid);
         let mut hung = false;
+        let mut starved = false;
         let status = loop {
             match child.try_wait() {
                 Ok(Some(st)) => break Some(st),
@@ -96,13 +114,27 @@ pub fn run(ctx: &Ctx) -> Outcome {
             if len != last_len {
                 last_len = len;
                 last_change = crate::clock::real_mono_ns();
-            } else if crate::clock::real_mono_ns() - last_change > 10_000_000_000 {
-                let _ = child.kill();
-                let _ = child.wait();
-                hung = true;
-                break None;
+                cpu_at_change = cpu_ticks(pid);
+            } else {
+                let busy_ticks = cpu_ticks(pid).saturating_sub(cpu_at_change);
+                if busy_ticks > 1000 {
+                    // > 10 s of CPU (100 ticks per second) inside one request body
+                    let _ = child.kill();
+                    let _ = child.wait();
+                    hung = true;
+                    break None;
+                }
+                if crate::clock::real_mono_ns() - last_change > 300_000_000_000 {
+                    let _ = child.kill();
+                    let _ = child.wait();
+                    starved = true;
+                    break None;
+                }
             }
         };
+        if starved {
+            out.inconclusive("a C17 worker made no progress for 5 minutes without consuming CPU (machine stalled?)");
+        }
         let text = std::fs::read_to_string(&outp).unwrap_or_default();
         let mut last_begin: Option<Value> = None;
         let mut done_upto = from;
@@ -138,11 +170,15 @@ pub fn run(ctx: &Ctx) -> Outcome {
             break;
         }
         deaths += 1;
+        if starved {
+            from = last_begin.as_ref().and_then(|v| v["i"].as_u64()).unwrap_or(done_upto) + 1;
+            continue;
+        }
         match last_begin {
             Some(v) => {
                 let i = v["i"].as_u64().unwrap_or(done_upto);
                 let (sig, what) = if hung {
-                    (format!("C17/hang/{}", v["kind"].as_str().unwrap_or("?")), format!("one request body kept the receiver busy for more than 10 s (case {})", i))
+                    (format!("C17/hang/{}", v["kind"].as_str().unwrap_or("?")), format!("one request body kept the receiver busy for more than 10 s of CPU time (case {})", i))
                 } else {
                     (format!("C17/process-died/{}", v["kind"].as_str().unwrap_or("?")), format!("the receiving process died ({:?}) while handling one request body (case {})", status, i))
                 };
